@@ -7,7 +7,7 @@
 (* Series.tla from the term days and the (day number + 49) mod 60 pillar.  *)
 (* Claimed for every civil date of years 2..9998.                          *)
 (***************************************************************************)
-EXTENDS Series, TraceIO, TLC
+EXTENDS Series, Civil, TraceIO, TLC
 
 VARIABLES l, nv, nt
 
@@ -17,7 +17,8 @@ DayClauses(e) ==
   LET ws0 == e.yt[1]  mz == e.yt[2]  xz == e.yt[3]  xs == e.yt[4]  lq == e.yt[5]  ws1 == e.yt[6]
       cmd == Commanding(e.j, e.ji, e.jj)
   IN
-  [ terms   |-> \A k \in 1..6 : e.yt[k] > 0,
+  [ civil     |-> Valid(e.y, e.m, e.d) /\ e.j = JDN(e.y, e.m, e.d),
+    terms   |-> \A k \in 1..6 : e.yt[k] > 0,
     nine    |-> e.nine = Nine(e.j, ws0, ws1),
     dog     |-> e.dog = Dog(e.j, xz, lq),
     plum    |-> e.plum = PlumRain(e.j, mz, xs),
